@@ -30,6 +30,9 @@ Round 5: Prototype.__init__ paths that keep the class instead of a snapshot.
 Round 6: augmented assignment on a name that is the packet's own value; per-call closure cells
 of run-time functions are not shared state; helpers called only from _compile are declaration
 phase.
+Round 7: Packet.__init__ never feeds its keyword dict from another object; a module-level memo table
+whose value is an immutable function of its key is not shared mutable state; compile steps kept in a
+class-level table that only _compile reads are declaration phase.
 """
 import ast
 
